@@ -748,7 +748,7 @@ hdf_write_var(XDR *xdrs, NC *handle, NC_var **var)
     uint16     ref;
     int8       outNT;
     uint8      tbuf[2 + ((H4_MAX_VAR_DIMS + 1) * 8)]; /* temporary buffer */
-    int32      tags[H4_MAX_NC_ATTRS + H4_MAX_VAR_DIMS + 2];
+    int32      tags[H4_MAX_NC_ATTRS + H4_MAX_VAR_DIMS + 10];
     int32      refs[H4_MAX_NC_ATTRS + H4_MAX_VAR_DIMS + 10];
     uint16     nt_ref, rank;
     int32      GroupID, val, vs_id;
@@ -1153,7 +1153,7 @@ done:
 int
 hdf_read_dims(XDR *xdrs, NC *handle, int32 vg)
 {
-    char     vgname[H4_MAX_NC_NAME]   = "";
+    char     vgname[H4_MAX_NC_NAME + 1] = ""; /* names of H4_MAX_NC_NAME chars are legal: room for the NUL */
     char     vsclass[H4_MAX_NC_CLASS] = "";
     char     vgclass[H4_MAX_NC_CLASS] = "";
     int      id, count, i, found;
@@ -1387,7 +1387,7 @@ hdf_read_attrs(XDR *xdrs, NC *handle, int32 vg)
     int     count, t, n;
     int32   vs, tag, id, vsize, attr_size, nt;
     nc_type type;
-    char    vsname[H4_MAX_NC_NAME] = "";
+    char    vsname[H4_MAX_NC_NAME + 1] = "";
     char    fields[100]            = "";
     char class[H4_MAX_NC_CLASS]    = "";
     char     *values               = NULL;
@@ -1505,8 +1505,8 @@ done:
 int
 hdf_read_vars(XDR *xdrs, NC *handle, int32 vg)
 {
-    char vgname[H4_MAX_NC_NAME]  = "";
-    char subname[H4_MAX_NC_NAME] = "";
+    char vgname[H4_MAX_NC_NAME + 1]  = ""; /* names of H4_MAX_NC_NAME chars are legal: room for the NUL */
+    char subname[H4_MAX_NC_NAME + 1] = "";
     char class[H4_MAX_NC_CLASS]  = "";
     NC_var      **variables      = NULL;
     NC_var       *vp             = NULL;
